@@ -1,6 +1,7 @@
 /- C11 line-protocol driver: `lake env lean --run Verif/C11/Driver.lean` -/
 import Verif.Common.Proto
 import Verif.C11.Model
+import Verif.C11.Compose
 open Lean Verif.Proto Verif.C11
 
 namespace Verif.C11.Driver
@@ -191,6 +192,26 @@ def handleQuery (j : Json) : Except String Json := do
         | .ok r => pure (Json.mkObj [("parse", pj),
             ("rows", Json.mkObj [("ok", jList (jList optCps) r.rows), ("ordered", Json.bool r.ordered)])])
 
+def ofRawRel (j : Json) : Except String Compose.RawRel := do
+  let name ← getStr j "name"
+  let fields ← (← getArr j "fields").mapM ofField
+  let rows ← (← getArr j "rows").mapM (fun r => do (← r.getArr?).toList.mapM ofOptCps)
+  pure { name, fields, rows }
+
+/-- the composed pipeline C11 ∘ C08: query text and raw cells in -/
+def handleComposed (j : Json) : Except String Json := do
+  let text ← getCps j "text"
+  let rdb ← (← getArr j "rawdb").mapM ofRawRel
+  let tbl ← ofRx (← j.getObjVal? "rx")
+  match Compose.parseText text with
+  | .error e => pure (Json.mkObj [("parse", jErr (errTag e))])
+  | .ok q =>
+    let pj := jOk (jQuery q)
+    match Compose.selectRaw (rxOf tbl) rdb q with
+    | .error e => pure (Json.mkObj [("parse", pj), ("rows", jErr (errTag e))])
+    | .ok r => pure (Json.mkObj [("parse", pj),
+        ("rows", Json.mkObj [("ok", jList (jList optCps) r.rows), ("ordered", Json.bool r.ordered)])])
+
 def handle (j : Json) : Except String Json := do
   let op ← getStr j "op"
   match op with
@@ -221,6 +242,9 @@ def handle (j : Json) : Except String Json := do
             let ps := (ws ++ [['.']]).zip ts
             ts.length = ws.length + 1 && ps.all (fun p => spells p.1 p.2) && seqOKW ps
         pure (r0.mergeObj (Json.mkObj [("spelled", Json.bool ok)]))
+    let r ← match j.getObjVal? "rawdb" with
+      | .error _ => pure r
+      | .ok _ => do pure (r.mergeObj (Json.mkObj [("composed", ← handleComposed j)]))
     match j.getObjVal? "text" with
     | .error _ => pure r
     | .ok t => do
